@@ -947,7 +947,9 @@ def best_rules(ctx):
     else: ctx.undecided(R + '/returns-id', 'T-CARRY', b.site(), 'how the id is taken out of the selected pair is not recognised; that the selected pair flows into the u64 result is decided (returns-selected)')
     # ---- objective lookup for every candidate id, missing => error; sense conversion error propagates
     gets = [c for c in b.calls if c.item == 'get' and c.path.endswith('SampledValues>::get')]
-    ctx.check(bool(gets), R + '/objective-lookup', 'T-ERRFLOW', b.name, 'no objectives.get(id)', b.site())
+    # the table looked up is the sample set's own `objectives` field -- read through the private helper objectives() or directly
+    own_table = all(ctx.S.slice_operand(b, g.args[0]).has_field(SS, 'objectives') for g in gets)
+    ctx.check(bool(gets) and own_table, R + '/objective-lookup', 'T-ERRFLOW', b.name, 'no objectives.get(id)' if not gets else 'the table looked up is not self.objectives', b.site())
     id_loops = []
     for g in gets:
         inside = [lo for lo in loops if g.bb in lo[4]]
@@ -960,8 +962,23 @@ def best_rules(ctx):
         errflow_ps(ctx, R + '/missing-objective-is-error', b, [g], 'missing objective')
     tf = [c for c in b.calls if c.item in ('try_from', 'try_into') and 'Sense' in c.name]
     errflow_ps(ctx, R + '/invalid-sense-is-error', b, tf, 'invalid sense')
-    oc = [c for c in b.calls if c.item == 'objectives']
-    errflow_ps(ctx, R + '/missing-objectives-is-error', b, oc, 'missing objectives')
+    # an absent `objectives` field is an error: identified by the field, however it is read --
+    #   self.objectives()?                                  the helper's Result (its own body reads the field)
+    #   self.objectives.as_ref().context(..)? / ok_or..      a call taking the field: its Option result
+    #   match &self.objectives { Some(o) => o, None => bail!(..) } / let-else      a test of the field: the None side
+    oc = [c for c in b.calls if c.item == 'objectives' and c.path.endswith('SampleSet>::objectives')]
+    def takes_the_field(c):
+        fs, root, crossed = T.access_path(b, c.args[0])           # the field itself (borrowed / copied), not something computed from it
+        return root == 1 and not crossed and [f for a, f in fs if a == SS or a.endswith('::' + SS)][-1:] == ['objectives'] and all(a == SS or a.endswith('::' + SS) for a, f in fs)
+    direct = [c for c in b.calls if c not in oc and c.args and takes_the_field(c)]
+    tests = option_field_tests(b, SS, 'objectives')
+    if oc or direct:
+        errflow_ps(ctx, R + '/missing-objectives-is-error', b, oc + direct, 'missing objectives')
+    elif tests:
+        badn = [sb for sb, st_, nt_ in tests if reach_x(b, [nt_]) & b.strict_ok_exits()]
+        ctx.check(not badn, R + '/missing-objectives-is-error', 'T-ERRFLOW', b.name, 'missing objectives: the None side of the test of self.objectives reaches an Ok-exit', b.site(tests[0][0]))
+    else:
+        ctx.bad(R + '/missing-objectives-is-error', 'T-ERRFLOW', b.name, 'how the absence of self.objectives is handled is not recognised (no helper call, no adaptor on the field, no test of it)', b.site())
     # ---- all candidates take part: what is selected from is the ids loop itself, or a collection every id was pushed to
     probs = []
     for op in src_ops:
